@@ -24,6 +24,24 @@ from amaranth.hdl._ir import build_netlist
 # Register names and widths of the unit on the reference tree (set by the driver per contract, from probe_baseline.json):
 # lets a contract follow a *renamed* internal register (see TS.resolve).
 REFERENCE_REGS = {}
+REFERENCE_PORTS = {}        # prefix+port name -> width on the reference tree (probe baseline)
+
+
+class _PortView(dict):
+    """Port dictionary handed to contracts.  Iteration (.items/.values) gives the real z3 terms; indexing gives the term
+    zero-extended to the width the port had on the reference tree when it has become narrower there (an unsigned port
+    that lost bits cannot express the upper values any more: the contract's clauses are then decided over the value the
+    rest of the design would see, instead of failing to build on a sort mismatch)."""
+    def __init__(self, prefix):
+        super().__init__(); self._prefix = prefix; self.narrowed = {}
+
+    def __getitem__(self, k):
+        v = dict.__getitem__(self, k)
+        ref = REFERENCE_PORTS.get(self._prefix + k)
+        if ref and z3.is_bv(v) and v.size() < ref:
+            self.narrowed[k] = (v.size(), ref)
+            return z3.ZeroExt(ref - v.size(), v)
+        return v
 
 
 class Unsupported(Exception):
@@ -76,7 +94,7 @@ class TS:
         self.design = frag.prepare(ports=pd, hierarchy=("top",))
         self.nl = nl = build_netlist(self.design)
         self.state, self.init, self.next = {}, {}, {}
-        self.inputs, self.outputs = {}, {}
+        self.inputs, self.outputs = _PortView(prefix), _PortView(prefix)
         self.cellval = {}
         self.clock_inputs, self.reset_inputs = [], []
         self.probes = {}
@@ -421,7 +439,8 @@ class TS:
                         en = self.val(wp.en)
                         r = z3.If(wa == ra, (self.val(wp.data) & en) | (r & ~en), r)
                 self.next[('rp', idx)] = z3.If(self.netb(c.en), r, self.state[('rp', idx)])
-        self.outputs = {name: self.val(value) for name, value in top.ports_o.items()}
+        for name, value in top.ports_o.items():
+            self.outputs[name] = self.val(value)
         self.n_cells = len(nl.cells)
         self.state_bits = sum(v.size() for k, v in self.state.items() if k[0] != 'mem')
 
